@@ -1,12 +1,12 @@
 (* Extraction of the executable WAL / snapshot / CRC models (C16) to OCaml. ExtrOcamlBasic only:
    bool, option, unit, list, prod, sumbool, comparison map to the OCaml types; N, Z, positive,
    nat, byte stay the extracted inductives.  No Extract Constant. *)
-Require Import Base.Bytes Wal.Crc32c Wal.Pb Wal.WalModel Wal.SnapModel.
+Require Import Base.Bytes Wal.Crc32c Wal.CrcTab Wal.Pb Wal.WalModel Wal.SnapModel.
 Require Extraction.
 Require Import ExtrOcamlBasic.
 Extraction Language OCaml.
 Extraction "walmodel.ml" Byte.of_N Byte.to_N
-  crc_update varint_enc varint_dec rec_marshal rec_unmarshal
+  crc_update crc_update_tab varint_enc varint_dec rec_marshal rec_unmarshal
   encode_recs decode_whole decode_files decode_each
   read_all read_all_dec read_all_w read_all_w_dec verify verify_dec repair_files zero_tail
   crash_image_list set_byte
